@@ -126,6 +126,16 @@ fn execute<F: Fl>(n_nodes: usize, init: &AState, progs: &[Vec<Value>], plan: &[u
 where
     F::Node: Send + Sync + 'static,
 {
+    execute_forced::<F>(n_nodes, init, progs, plan, writer_pref, pre_bound, None)
+}
+
+/// like `execute`; with `forced` = a sequence of thread ids, the scheduler grants exactly those
+/// threads in that order (replay of a stored schedule) as long as they are enabled
+fn execute_forced<F: Fl>(n_nodes: usize, init: &AState, progs: &[Vec<Value>], plan: &[usize], writer_pref: bool, pre_bound: usize,
+                         forced: Option<&[usize]>) -> ExecResult
+where
+    F::Node: Send + Sync + 'static,
+{
     let nt = progs.len();
     let world = World::<F>::build(init, None).expect("build initial graph");
     assert!(world.nodes.len() == n_nodes);
@@ -235,7 +245,12 @@ where
         };
         let k = if step < plan.len() { plan[step].min(options.len() - 1) } else { 0 };
         choices.push(options.len());
-        let t = options[k];
+        let mut t = options[k];
+        if let Some(fs) = forced {
+            if step < fs.len() && enabled.contains(&fs[step]) {
+                t = fs[step];
+            }
+        }
         if let Some(lt) = last {
             if t != lt && enabled.contains(&lt) {
                 preemptions += 1;
@@ -434,4 +449,27 @@ where
     }
     f.flush().unwrap();
     json!({"flavour": F::NAME, "rounds": rounds, "threads": threads, "calls": total_calls})
+}
+
+/// `--replay` of a stored C17 case: run its grant sequence again on the current tree
+pub fn replay_case(opts: &HashMap<String, String>) -> Value {
+    let file = opts.get("case").expect("--case");
+    let v: Value = serde_json::from_str(&std::fs::read_to_string(file).expect("read case")).expect("case json");
+    let c = &v["case"];
+    match c["flavour"].as_str().unwrap_or("") {
+        "sync_digraph" => replay_case_fl::<SyncDigraph>(c),
+        "sync_ungraph" => replay_case_fl::<SyncUngraph>(c),
+        o => json!({"error": format!("not a scheduler case (flavour {})", o)}),
+    }
+}
+
+fn replay_case_fl<F: Fl>(c: &Value) -> Value
+where
+    F::Node: Send + Sync + 'static,
+{
+    let init = AState { out: serde_json::from_value(c["g0"]["out"].clone()).unwrap(), inn: serde_json::from_value(c["g0"]["inn"].clone()).unwrap() };
+    let progs: Vec<Vec<Value>> = c["prog"].as_array().unwrap().iter().map(|p| p.as_array().unwrap().clone()).collect();
+    let grants: Vec<usize> = serde_json::from_value(c["grant_sequence"].clone()).unwrap_or_default();
+    let r = execute_forced::<F>(init.n(), &init, &progs, &[], true, usize::MAX, Some(&grants));
+    json!({"kind": "schedule", "flavour": F::NAME, "g0": c["g0"], "prog": c["prog"], "requested_grants": grants, "grants": r.grants, "outcome": r.outcome})
 }
